@@ -335,6 +335,10 @@ class Waiting(State):
 
     def interrupt(self, reason: Any) -> None:
         # This will cause the future in execute() to raise the exception
+        if self._waiting_future.done():
+            # The wait is already being woken up (it was resumed or interrupted before): ``execute`` is about to
+            # return control to ``Process.step``, which runs the pending interrupt action of the process.
+            return
         self._waiting_future.set_exception(reason)
 
     async def execute(self) -> State:  # type: ignore
